@@ -21,7 +21,7 @@ Definition perr_eqb (a b : option perr) : bool :=
   end.
 
 Definition mnode_eqb (a b : mnode) : bool :=
-  Bool.eqb (mn_text_plain a) (mn_text_plain b) && Bool.eqb (mn_pdf a) (mn_pdf b) && bytes_eqb (mn_full a) (mn_full b).
+  Bool.eqb (mn_text_plain a) (mn_text_plain b) && Bool.eqb (mn_pdf a) (mn_pdf b) && Bool.eqb (mn_m3u8 a) (mn_m3u8 b) && bytes_eqb (mn_full a) (mn_full b).
 Fixpoint mime_eqb (a b : mime) : bool :=
   match a, b with
   | [], [] => true
